@@ -104,8 +104,11 @@ func genC19(t *rapid.T) *Case {
 		var el string
 		switch h.family {
 		case "youtube":
-			shape := g.pick("ytshape", "/embed/ID", "/embed/ID/", "/v/ID", "/v/ID&x=1", "/embed/ID?rel=0&t=5", "/embed//ID//", "/embed/?v=ID", "/?v=ID", "?v=ID")
+			shape := g.pick("ytshape", "/embed/ID", "/embed/ID/", "/v/ID", "/v/ID&x=1", "/embed/ID?rel=0&t=5", "/embed//ID//", "/embed/?v=ID", "/?v=ID", "?v=ID", "/embed/ID#t=30", "/v/ID#x/y")
 			o.Shape = shape
+			if strings.Contains(shape, "#") {
+				query = ""
+			}
 			path := strings.ReplaceAll(shape, "ID", tok)
 			src := scheme + hostPart + path
 			if query != "" && strings.Contains(shape, "&") {
@@ -135,15 +138,21 @@ func genC19(t *rapid.T) *Case {
 				el = `<object width="425" height="350"><param name="movie" value="` + htmlEsc(src) + `"><embed src="` + htmlEsc(src) + `"></object>`
 			}
 		case "vimeo":
-			shape := g.pick("vmshape", "/video/ID", "/video/ID/", "/video/ID?color=fff", "/ID", "/video/?id=ID", "/?id=ID")
+			shape := g.pick("vmshape", "/video/ID", "/video/ID/", "/video/ID?color=fff", "/ID", "/video/?id=ID", "/?id=ID", "/video/ID#t=30s")
 			o.Shape = shape
+			if strings.Contains(shape, "#") {
+				query = ""
+			}
 			src := scheme + hostPart + strings.ReplaceAll(shape, "ID", tok) + query
 			o.Src = src
 			o.Tag = "iframe"
 			el = `<iframe src="` + htmlEsc(src) + `" width="640"></iframe>`
 		default:
-			shape := g.pick("twshape", "/user/status/ID", "/user/status/ID/", "/user/statuses/ID?s=20", "/?id=ID", "?id=ID")
+			shape := g.pick("twshape", "/user/status/ID", "/user/status/ID/", "/user/statuses/ID?s=20", "/?id=ID", "?id=ID", "/user/status/ID#x")
 			o.Shape = shape
+			if strings.Contains(shape, "#") {
+				query = ""
+			}
 			src := scheme + hostPart + strings.ReplaceAll(shape, "ID", tok) + query
 			o.Src = src
 			if g.chance(65, "twbq") {
@@ -152,6 +161,10 @@ func genC19(t *rapid.T) *Case {
 				early := ` <a href="https://t.co/` + g.tokp("tco") + `">` + g.words(1) + `</a>`
 				if g.chance(50, "hashtag") {
 					early += ` <a href="https://twitter.com/hashtag/` + g.tokp("tag") + `?src=hash">#` + g.words(1) + `</a> <a href="https://twitter.com/` + g.tokp("usr") + `">@` + g.words(1) + `</a>`
+				}
+				// a frame inside the tweet: no extractor ever looks at its host
+				if g.chance(20, "twframe") {
+					early += ` <iframe src="http://evil.example/widget/` + g.tokp("fr") + `"></iframe>`
 				}
 				el = `<blockquote class="twitter-tweet" lang="en"><p>` + g.words(g.intn(2, 10, "tww")) + early +
 					`</p>&mdash; ` + g.words(2) + ` <a href="` + htmlEsc(src) + `">` + g.words(2) + `</a></blockquote>`
@@ -211,6 +224,13 @@ func checkC19(c *Case) (*Violation, caseInfo) {
 		}
 		accepted[o.Tok] = true
 		info.Classes = append(info.Classes, "accepted:"+o.Tag)
+		if o.Tag == "blockquote" {
+			for _, fr := range findAll(ph, func(n *html.Node) bool { return isElem(n, "iframe", "object", "embed") }) {
+				if viol == nil {
+					viol = violationf("C19 foreign-frame-inside-tweet-placeholder tag="+fr.Data, "<%s> from inside the tweet survives in the placeholder: %s", fr.Data, truncate(render(fr), 300))
+				}
+			}
+		}
 		switch {
 		case o.Service == "":
 			if viol == nil {
